@@ -174,6 +174,18 @@ def evaluate(c):
             _, gb = pattern(cs, twos)
             ev += 2
             chk('SPLIT-second-' + b, float(np.abs(ga - gb)[ga > -200].max()), 1e-9, 'splitting the second medium (%s) changes the pattern' % b)
+            # ... and of the FIRST medium of two different media (the piece in the middle must keep its own boundary)
+            lo_b = lo_l if b == 'linear' else lo_c
+            xs = [lo_b + 0.3 * (hi - lo_b), lo_b + 0.6 * (hi - lo_b)] if b == 'linear' else [max(0.3 * hi, 0.01), max(0.6 * hi, 0.02)]
+            onef = dict(media=[[13., 5e-3, 0., xs[1]], [80., 4., -1.5]], boundary=b)
+            splf = dict(media=[[13., 5e-3, 0., xs[0]], [13., 5e-3, 0., xs[1]], [80., 4., -1.5]], boundary=b)
+            spl4 = dict(media=[[13., 5e-3, 0., xs[0]], [13., 5e-3, 0., xs[1]], [80., 4., -1.5, hi + 2.], [80., 4., -1.5]], boundary=b)
+            _, gc_ = pattern(cs, onef)
+            _, gd_ = pattern(cs, splf)
+            _, ge_ = pattern(cs, spl4)
+            ev += 3
+            chk('SPLIT-first-of-two-' + b, float(max(np.abs(gc_ - gd_)[gc_ > -200].max(), np.abs(gc_ - ge_)[gc_ > -200].max())), 1e-9,
+                'splitting the first of two different media (%s boundary, pieces at %.3g / %.3g) changes the pattern' % (b, xs[0], xs[1]))
             # a first medium in which no reflection point lies has no influence: neither its constants nor its radials
             lo = lo_l if b == 'linear' else lo_c
             if b == 'linear' or lo > 0.05:
